@@ -342,7 +342,7 @@ pub fn run_property<P: Property>(p: &P, cfg: &RunCfg) -> Value {
         }
     }
     // sweep cases become pseudo-jobs handled separately
-    let sweep = if cfg.only_class.is_none() { p.sweep(cfg.tier) } else { Vec::new() };
+    let sweep = if cfg.only_class.is_none() || cfg.only_class.as_deref() == Some("sweep") { p.sweep(cfg.tier) } else { Vec::new() };
 
     let next = AtomicUsize::new(0);
     let stop = AtomicBool::new(false);
